@@ -11,13 +11,16 @@
    `C09_reject_iff_*`: closed formulas (Conc/Reject.v: sibling_refusal, first_refusal, replace_refusal, detach_refusal,
    append_refusal, insert_refusal, setitem_refusal, delitem_refusal) for when each single-node call is refused and with
    which exception, on the specification side; `C09_reject_agrees` carries them to the concrete model.
-   Comment content / PI target assignment is proved for the generated validators only (the setters validate before they
-   assign -- checked by the harness, not modelled as operations). *)
+   The value-level setters -- comment content, PI target, PI content, attribute creation and renaming -- are modelled in
+   Conc/Setters.v (`csetter`): they reject exactly when the validator generated from the source refuses
+   (`C09_setter_refused_at`; for attributes the key that is going to be stored is validated, commit 139ed14) and then
+   leave the world unchanged (`C09_setter_reject_unchanged`); the four validators are
+   characterised by lemmas.  What an accepted attribute assignment does to the store is C11's subject. *)
 From Coq Require Import List NArith ZArith Bool.
 From Delb.Base Require Import PyStr.
-From Delb.Gen Require Import GenValidators.
+From Delb.Gen Require Import GenValidators GenNsValidators GenNames GenAttr GenAttrKey.
 From Delb.Tree Require Import ATree ITree AOps.
-From Delb.Conc Require Import CTree COps CGuard Reject Witness.
+From Delb.Conc Require Import CTree COps CGuard Setters Reject Witness.
 Import ListNotations.
 
 (* a refused single-node call leaves the whole concrete world -- target tree, offered node's tree, every lxml slot and
@@ -87,6 +90,51 @@ Theorem C09_pi_target_validator : forall s,
   pi_target_refused s = true <-> s = [] \/ py_lower_eq lower_pre s [120%N; 109%N; 108%N] = true.
 Proof. exact pi_target_refused_iff. Qed.
 Print Assumptions C09_pi_target_validator.
+
+(* the value-level setters (comment content, PI target, PI content, attribute creation / renaming): refused exactly when
+   the validator generated from the source refuses, always with ValueError, and then nothing has changed *)
+Theorem C09_setter_reject_unchanged : forall w st w' e, csetter w st = (w', Rejected e) -> w' = w.
+Proof. exact setter_reject_unchanged. Qed.
+Print Assumptions C09_setter_reject_unchanged.
+Theorem C09_setter_reject_class : forall w st e, snd (csetter w st) = Rejected e -> e = EValueError.
+Proof. exact setter_reject_class. Qed.
+Print Assumptions C09_setter_reject_class.
+(* at the node the call is addressed to: refused exactly when the generated validator refuses the value -- for an
+   attribute: the key that is going to be stored, `deconstruct_clark_notation (_etree_key (ns, name))`, both generated --
+   and an assignment takes place only when it accepts *)
+Theorem C09_setter_refused_at : forall st inh i k own data kids,
+  f_assign st inh (CEl i k own data kids) = Some (CEl i k own data kids, Refused) <->
+  i = setter_target st /\ refused_at st (in_scope inh own) k = Some true.
+Proof. exact setter_refused_at. Qed.
+Print Assumptions C09_setter_refused_at.
+Theorem C09_setter_assigned_only_if_accepted : forall st inh e e', f_assign st inh e = Some (e', Done) ->
+  refused_at st (in_scope inh (cown_dns e)) (ckind_of e) = Some false.
+Proof. exact setter_assigned_only_if_accepted. Qed.
+Print Assumptions C09_setter_assigned_only_if_accepted.
+(* validating the stored key is validating the qualified name, unless the local name holds Clark notation *)
+Theorem C09_attribute_stored_key : forall dns attrs ns name,
+  no_char RB ns = true -> no_char RB dns = true -> match name with x :: _ => N.eqb x LB = false | [] => True end ->
+  str_eqb dns xmlns_ns = false -> (null ns = false -> str_eqb ns dns = true -> str_eqb ns xmlns_ns = false) ->
+  attr_refused dns attrs ns name = attribute_name_refused ns name.
+Proof. exact attr_refused_plain. Qed.
+Print Assumptions C09_attribute_stored_key.
+(* finding C09-23 (repaired, commit 139ed14): Clark notation inside a local name is seen by the validation *)
+Example C09_repaired_clark_key :
+  attr_refused [] [] [] ([LB] ++ xmlns_ns ++ [RB] ++ [97%N]) = true /\
+  attr_refused [] [] [] ([LB] ++ [117%N] ++ [RB] ++ [120; 109; 108; 110; 115]%N) = true /\
+  attr_refused [100%N] [] [100%N] [120; 109; 108; 110; 115]%N = true /\
+  attr_refused [] [] [] ([LB] ++ [117%N] ++ [RB] ++ [97%N]) = false.
+Proof. repeat split; vm_compute; reflexivity. Qed.
+
+(* the two validators added by commits 528fc02 and 8372cfc, regenerated from the source on every run *)
+Theorem C09_attribute_name_validator : forall ns name,
+  attribute_name_refused ns name = true <-> name = [120; 109; 108; 110; 115]%N \/ ns = xmlns_ns.
+Proof. exact attribute_name_refused_iff. Qed.
+Print Assumptions C09_attribute_name_validator.
+Theorem C09_pi_content_validator : forall s,
+  pi_content_refused s = true <-> exists c r, s = c :: r /\ (c = 32 \/ c = 9 \/ c = 10 \/ c = 13)%N.
+Proof. exact pi_content_refused_iff. Qed.
+Print Assumptions C09_pi_content_validator.
 
 (* the witnesses of the repaired findings 19-22: refused, nothing changed *)
 Local Open Scope N_scope.
